@@ -10,7 +10,7 @@ def N(name):
     return ast.Name(id=name, ctx=ast.Load())
 
 
-def straight_env(block, before, env):
+def straight_env(block, before, env, keep=()):
     """Copy-propagate the simple `Name = expr` statements of `block` that precede
     statement `before` (same block level only)."""
     from ..interp import subst
@@ -19,6 +19,9 @@ def straight_env(block, before, env):
         if st is before:
             break
         if isinstance(st, ast.Assign) and len(st.targets) == 1 and isinstance(st.targets[0], ast.Name):
+            if st.targets[0].id in keep:
+                env.pop(st.targets[0].id, None)
+                continue
             env[st.targets[0].id] = subst(st.value, env)
         elif isinstance(st, ast.Assign):
             for t in st.targets:
